@@ -105,16 +105,27 @@ def fsop_lit(op):
 # ------------------------------------------------------------------------------------------- tracing helpers
 
 class FixedRandom(object):
-    """stands in for the module `random` inside mapproxy.util.fs: records / forces the temp suffix."""
+    """stands in for `random` and for os.getpid inside the storing modules: records / forces the temp suffix,
+    whichever of the two the code derives it from."""
 
     def __init__(self, rng):
         self.rng = rng
         self.force = None
         self.used = []
+        self.pid = rng.randint(2, 4194304)
+
+    def new_process(self):
+        """the process was killed and restarted: new pid"""
+        self.pid = self.rng.randint(2, 4194304)
 
     def randint(self, a, b):
         v = self.force if self.force is not None else self.rng.randint(a, b)
         self.force = None
+        self.used.append(v)
+        return v
+
+    def getpid(self):
+        v = self.force if self.force is not None else self.pid
         self.used.append(v)
         return v
 
@@ -130,21 +141,20 @@ class Env(object):
         self.root = root
         self.tr = fstrace.Tracer(root)
         self.tr.patch(*fstrace.store_modules())
-        self.ufs = ufs
-        self.saved_random = ufs.random
         self.rnd = FixedRandom(ctx.rng)
-        ufs.random = self.rnd
         import mapproxy.cache.file as cfile
-        self.cfile = cfile
-        self.saved_cfile_random = cfile.__dict__.get('random')
-        if self.saved_cfile_random is not None:      # the link temp name of _store_single_color_tile
-            cfile.random = self.rnd
+        # whatever the temp names are derived from (random.randint today) is under the control of the harness
+        self.saved = []
+        for mod in (ufs, cfile):
+            if 'random' in mod.__dict__:
+                self.saved.append((mod, mod.random))
+                mod.random = self.rnd
+        self.tr.proxy.getpid = self.rnd.getpid
 
     def close(self):
         self.tr.unpatch()
-        self.ufs.random = self.saved_random
-        if self.saved_cfile_random is not None:
-            self.cfile.random = self.saved_cfile_random
+        for mod, val in self.saved:
+            mod.random = val
 
     def traced(self, fn):
         """run fn() with tracing; returns (ops, exception type name or None)."""
@@ -326,7 +336,7 @@ FILE_CHECKER = (
     "  list_eqb rres_eqb (map (read_path (crash_state_at s ops k cut)) addrs) rs) obs")
 
 
-def scen_file(ctx, mode, nsteps, out):
+def scen_file(ctx, mode, nsteps, out, perms=False, script=()):
     from mapproxy.cache.file import FileCache
     from mapproxy.cache.tile import Tile
     from mapproxy.image import ImageSource, is_single_color_image
@@ -340,13 +350,18 @@ def scen_file(ctx, mode, nsteps, out):
     colors = [(255, 0, 0), (0, 0, 255)]
     modename = {False: 'none', True: 'symlink', 'hardlink': 'hardlink'}[mode]
     try:
-        cache = FileCache(cdir, 'png', link_single_color_images=mode)
+        pk = dict(directory_permissions='755', file_permissions='644') if perms else {}
+        cache = FileCache(cdir, 'png', link_single_color_images=mode, **pk)
         locs = [os.path.relpath(cache.tile_location(Tile(c)), cdir) for c in coords]
         stale_tmp = None
+        ctx.count('file:permissions-configured=%s' % bool(perms))
         for step in range(nsteps):
             ti = rng.randrange(len(coords))
-            coord = coords[ti]
             kind = rng.choice(['rand', 'rand', 'c0', 'c0', 'c1'])
+            sc_step = script[step] if step < len(script) else None
+            if sc_step is not None:         # directed prefix of the history: (address index, kind, crash point, force)
+                ti, kind = sc_step[0], sc_step[1]
+            coord = coords[ti]
             data = png_bytes(rng, None if kind == 'rand' else colors[int(kind[1])])
             if mode is False and rng.random() < 0.3:
                 data = bytes(rng.randrange(256) for _ in range(rng.choice([1, 2, 7, 30])))
@@ -369,12 +384,12 @@ def scen_file(ctx, mode, nsteps, out):
                 elif sc_exists and os.path.exists(tl):
                     samefile = os.path.samefile(os.path.join(cdir, sc), tl)
             # force a collision with a stale temp file left by an earlier crash
-            if stale_tmp is not None and stale_tmp[0] in pre and rng.random() < 0.7:
-                tp, num = stale_tmp
-                target = tp[:tp.rindex(TMP_TAG)]
-                want = sc if (sc is not None and not sc_exists) else locs[ti]
-                if target == want:
-                    env.rnd.force = num
+            want = sc if (sc is not None and not sc_exists) else locs[ti]
+            stale = [q for q in sorted(pre) if TMP_TAG in q and q[:q.rindex(TMP_TAG)] == want]
+            if stale and (rng.random() < 0.7 or sc_step is not None):
+                tp = stale[0]
+                env.rnd.force = int(tp[tp.rindex(TMP_TAG) + len(TMP_TAG):])   # the same temp name again (number / pid)
+                ctx.count('file:temp-name-collision-forced(stale %s)' % pre[tp][0])
             env.rnd.used = []
             tile = Tile(coord, ImageSource(io.BytesIO(data)))
             raw, exc = env.traced(lambda: cache.store_tile(tile))
@@ -418,6 +433,12 @@ def scen_file(ctx, mode, nsteps, out):
                     want = pre[sc][1]
                 if new[ti] != ('data', want):
                     ctx.fail('file:completed-store-wrong-content', 'after a completed store the address does not return the new content', rep)
+            # ... and every other address (the other links of a colour included) returns what it returned before
+            for j in range(len(coords)):
+                if j != ti and new[j] != old[j]:
+                    ctx.fail('file:other-address-affected-by-completed-store:' + classify_bad(new[j], [old[j]], old + new),
+                             'a store (completed or raised) changed what another address returns',
+                             dict(rep, address=coords[j], before=describe_r(old[j]), after=describe_r(new[j])))
             # ---- oracle over every raw prefix (+ tears)
             walk = CrashWalk(env, pre_dir, root)
             obs = []
@@ -468,11 +489,17 @@ def scen_file(ctx, mode, nsteps, out):
             out['file_descr'].append(dict(rep, canonical_ops=[describe_op(o) for o in canon]))
             # ---- continue the history, sometimes from a crash state (leaves stale temp files around)
             stale_tmp = None
-            if rng.random() < 0.35 and raw:
+            crash_at = sc_step[2] if sc_step is not None else None
+            if (crash_at is None and sc_step is None and rng.random() < 0.35 and raw) or crash_at is not None:
                 k = rng.randrange(len(raw) + 1)
                 cut = None
-                if k < len(raw) and raw[k][0] == 'write' and len(raw[k][3]) > 1:
+                if crash_at == 'after-link-tmp':
+                    # the process is killed between creating the link under its temp name and the rename
+                    ks = [i + 1 for i, o in enumerate(raw) if o[0] in ('symlink', 'link') and TMP_TAG in o[2]]
+                    k = ks[0] if ks else len(raw)
+                elif k < len(raw) and raw[k][0] == 'write' and len(raw[k][3]) > 1:
                     cut = rng.randrange(len(raw[k][3]))
+                env.rnd.new_process()
                 env.fstrace.copy_tree(pre_dir, cdir)
                 env.fstrace.replay(raw[:k], cdir)
                 if cut is not None:
@@ -513,7 +540,7 @@ ATOMIC_CHECKER = (
     "forallb (fun o => let '(k, cut, r) := o in rres_eqb (read_path (crash_state_at s ops k cut) p) r) obs")
 
 
-def scen_atomic(ctx, kind, nsteps, out):
+def scen_atomic(ctx, kind, nsteps, out, perms=False):
     """LegendCache.store / ProgressStore.write: plain write_atomic of one file."""
     rng = ctx.rng
     root = ctx.tmpdir('wa')
@@ -525,13 +552,15 @@ def scen_atomic(ctx, kind, nsteps, out):
         if kind == 'legend':
             from mapproxy.cache.legend import LegendCache, Legend, legend_hash
             from mapproxy.image import ImageSource
-            lc = LegendCache(cdir, 'png')
+            pk = dict(directory_permissions='755', file_permissions='644') if perms else {}
+            lc = LegendCache(cdir, 'png', **pk)
+            ctx.count('atomic:legend:permissions-configured=%s' % bool(perms))
             rel = legend_hash('http://x/?lyr', 1000) + '.png'
 
             def reader(d):
                 try:
                     leg = Legend(id='http://x/?lyr', scale=1000)
-                    if LegendCache(d, 'png').load(leg):
+                    if LegendCache(d, 'png', **pk).load(leg):
                         return ('data', leg.source.as_buffer().read())
                     return ('missing',)
                 except Exception as e:
@@ -564,8 +593,9 @@ def scen_atomic(ctx, kind, nsteps, out):
             pre_dir = os.path.join(root, 'pre')
             env.fstrace.copy_tree(cdir, pre_dir)
             old = reader(cdir)
-            if stale_tmp is not None and stale_tmp[0] in pre and rng.random() < 0.7:
-                env.rnd.force = stale_tmp[1]
+            stale = [q for q in sorted(pre) if q.startswith(rel + TMP_TAG)]
+            if stale and rng.random() < 0.7:
+                env.rnd.force = int(stale[0][len(rel + TMP_TAG):])
             env.rnd.used = []
             raw, exc = env.traced(fn)
             env.rnd.force = None
@@ -615,6 +645,7 @@ def scen_atomic(ctx, kind, nsteps, out):
             stale_tmp = None
             if rng.random() < 0.4 and raw:
                 k = rng.randrange(len(raw) + 1)
+                env.rnd.new_process()
                 env.fstrace.copy_tree(pre_dir, cdir)
                 env.fstrace.replay(raw[:k], cdir)
                 if k < len(raw) and raw[k][0] == 'write' and len(raw[k][3]) > 1:
@@ -772,7 +803,7 @@ INIT_CHECKER = (
     "(flen f =? len) && forallb (fun s => fbyte f (fst s) =? snd s) samples")
 
 
-def scen_compact(ctx, version, nsteps, out, big=False):
+def scen_compact(ctx, version, nsteps, out, big=False, perms=False):
     from mapproxy.cache.compact import CompactCacheV1, CompactCacheV2
     from mapproxy.cache.tile import Tile
     from mapproxy.image import ImageSource
@@ -798,7 +829,9 @@ def scen_compact(ctx, version, nsteps, out, big=False):
     hist = []          # raw in-place writes on the bundle since its initialisation
     tag = 'v%d' % version
     try:
-        cache = cls(cdir)
+        pk = dict(directory_permissions='755', file_permissions='644') if perms else {}
+        cache = cls(cdir, **pk)
+        ctx.count('%s:permissions-configured=%s' % (tag, bool(perms)))
         for step in range(nsteps):
             nb = rng.choice([1, 1, 2, 3])
             batch = []
@@ -948,8 +981,27 @@ def scen_compact(ctx, version, nsteps, out, big=False):
                 out[tag + '_descr'].append(rep)
             elif bundle_ops and not single_bundle:
                 ctx.count('%s:multi-bundle-batch(oracle only)' % tag)
-            # history of the bundle under observation
-            for o in bundle_ops:
+            # history of the bundle under observation; sometimes the history continues from a crash state of this
+            # store (a legitimate prior cache content for the next store), preferably right after an index write
+            applied = list(bundle_ops)
+            if raw and rng.random() < 0.35:
+                k = rng.randrange(len(raw) + 1)
+                idxs = [i + 1 for i, o in enumerate(raw) if o[0] == 'write' and o[1] in (dat_rel, idx_rel) and is_index_write(o)]
+                if idxs and rng.random() < 0.5:
+                    k = rng.choice(idxs)
+                cut = None
+                if k < len(raw) and raw[k][0] == 'write' and len(raw[k][3]) > 1 and not is_index_write(raw[k]):
+                    cut = rng.randrange(1, len(raw[k][3]))
+                env.fstrace.copy_tree(pre_dir, cdir)
+                env.fstrace.replay(raw[:k], cdir)
+                if cut is not None:
+                    env.fstrace.apply_op(cdir, raw[k], cut=cut)
+                applied = [bundle_ops[n] for n, i in enumerate(inplace) if i < k]
+                if cut is not None and k in inplace:
+                    o = bundle_ops[inplace.index(k)]
+                    applied.append((o[0], o[1], o[2][:cut]))
+                ctx.count('%s:history-continues-from-crash-state' % tag)
+            for o in applied:
                 hist.append((o[1], o[2]) if version == 2 else o)
             shutil.rmtree(chk, ignore_errors=True)
     finally:
@@ -1035,16 +1087,21 @@ def run(ctx):
     q = ctx.quick
     for mode in (False, True, 'hardlink'):
         for rep in range(ctx.n(2, 8)):
-            guarded('file/%s/%d' % (mode, rep), scen_file, ctx, mode, ctx.n(9, 14), out)
+            script = ()
+            if mode and rep == 0:
+                # directed: colour tile at A; same colour at B, killed between link-under-temp-name and rename;
+                # restart, regular tile at B with the same temp name (same random number / same pid)
+                script = ((0, 'c0', None), (1, 'c0', 'after-link-tmp'), (1, 'rand', None))
+            guarded('file/%s/%d' % (mode, rep), scen_file, ctx, mode, ctx.n(9, 14), out, perms=(rep % 2 == 1), script=script)
     mark('file-scenarios')
     for kind in ('legend', 'progress'):
-        for rep in range(ctx.n(1, 4)):
-            guarded('%s/%d' % (kind, rep), scen_atomic, ctx, kind, ctx.n(6, 10), out)
+        for rep in range(ctx.n(2, 4)):
+            guarded('%s/%d' % (kind, rep), scen_atomic, ctx, kind, ctx.n(5, 10), out, perms=(rep % 2 == 1))
     mark('atomic-scenarios')
     for version in (2, 1):
         for rep in range(ctx.n(3, 12)):
             guarded('compact-v%d/%d' % (version, rep), scen_compact, ctx, version, ctx.n(4, 6), out,
-                    big=(rep == 0 and (version == 2 or not q)))
+                    big=(rep == 0 and (version == 2 or not q)), perms=(rep % 2 == 1))
         mark('compact-v%d-scenarios' % version)
     ctx.corr_check('file_store', 'Bytes Crash', FILE_CASE_TYPE, out['file_terms'], FILE_CHECKER,
                    lambda i: out['file_descr'][i], shard=12 if q else 20)
